@@ -248,6 +248,19 @@ def run_one(res, cfg, tag):
         finally:
             lg.removeHandler(cap)
             lg.propagate = old_prop
+        if len(out[0]) < cfg["n_chain"] and cfg["n_process"] != 1 and not any("Initialisation of" in m for m in cap.messages):
+            # workers log in their own process: confirm an adapter initialisation failure with a sequential run
+            lg.addHandler(cap)
+            try:
+                samp.run(dict(cfg, n_process=1), samp.build(dict(cfg, n_process=1), samp.Log(sc.logdir)), memdir=sc.memdir)
+            except Exception:  # noqa: BLE001
+                pass
+            finally:
+                lg.removeHandler(cap)
+        if any("Initialisation of" in m for m in cap.messages):
+            # an adapter failed to initialise for a chain: documented as non-fatal, the chain is dropped from the
+            # outputs - nothing further is asserted about such runs
+            return None, "adapter-initialisation-failed"
         recs = log.read()
         compare_outputs(res, cfg, b, out, recs, tag)
         if cfg["storage"] == "memmap_dir" and not res.failures:
